@@ -20,7 +20,7 @@ ASSUMPTIONS = [
     "(Go's AddDate is not modelled)",
     "RewardInterval/BlockSpeedCalculateCycle > 0 and unchanged during a run (governance updates of reward options are outside the model)",
     "storage errors (Set/Get failing) are outside the model",
-    "WITHDRAW_REWARD on the application path: the model withdraw_tx covers the amount check of Validate (45cfd0d), the int64 narrowing of "
+    "WITHDRAW_REWARD on the application path: the model withdraw_tx covers the amount checks of Validate (45cfd0d, ed95e98), the int64 narrowing of "
     "ToCoinWithBase and the balance/pool sufficiency; signer = the validator's stake address and a funded fee payer in all generated transactions",
 ]
 
@@ -31,7 +31,7 @@ VIOL = {10: "credits exceed the pulled amount", 11: "negative credit", 12: "nega
         21: "pulled amount above the remaining year supply / the pool-capped burnout rate",
         30: "cumulative invariant broken (balance < 0 or balance + withdrawn <> matured)",
         31: "a withdrawal paid more than the matured balance",
-        32: "a negative WITHDRAW_REWARD amount was accepted (CheckTx or DeliverTx) or changed the cumulative records"}
+        32: "a WITHDRAW_REWARD amount that is negative or outside int64 was accepted (CheckTx or DeliverTx) or changed the cumulative records"}
 KNOWN = {}   # monitor code -> trigger id of a finding with status "known" (none at present: all three are fixed)
 
 
